@@ -1,5 +1,7 @@
 /* C09: traversal and locality helpers vs. brute-force definitions over the flat view + SET model. */
 #include "hv.h"
+#include <ctype.h>
+#include <strings.h>
 #include "topo.h"
 #include <limits.h>
 
@@ -282,6 +284,40 @@ static void q_same_locality(void)
     CHECK(got->type == ty && (ty == HWLOC_OBJ_PCI_DEVICE || ty == HWLOC_OBJ_OS_DEVICE), "same_locality.io_type", "same_locality on I/O returned a %s for %s", hwloc_obj_type_string(got->type), hwloc_obj_type_string(ty));
   }
   CHECK(hwloc_get_obj_with_same_locality(T, se->o, ty, NULL, NULL, 1UL << hv_below(&R, 8)) == NULL, "same_locality.flags", "non-zero flags accepted");
+  /* subtype / name-prefix filters (case-insensitive; "the first one is returned"), on normal and memory objects */
+  if (se->has_sets && (tk_kind(ty) == TK_NORMAL || tk_kind(ty) == TK_MEMORY)) {
+    int td = hwloc_get_type_depth(T, ty);
+    if (td != HWLOC_TYPE_DEPTH_MULTIPLE && td != HWLOC_TYPE_DEPTH_UNKNOWN) {
+      static const char *const SUBS[] = { "HBM", "hbm", "DRAM", "Nope" }, *const PFX[] = { "dev", "DEV1", "Dev12", "x", "" };
+      const char *sub = hv_chance(&R, 1, 2) ? SUBS[hv_below(&R, 4)] : NULL, *pfx = hv_chance(&R, 1, 2) ? PFX[hv_below(&R, 5)] : NULL;
+      hwloc_obj_t want = NULL;
+      for (unsigned i = 0, n = hwloc_get_nbobjs_by_depth(T, td); i < n && !want; i++) { hwloc_obj_t o = hwloc_get_obj_by_depth(T, td, i); struct tv_obj *e = E(o);
+        if (!e || !vs_isequal(&e->cs, &se->cs) || !vs_isequal(&e->ns, &se->ns)) continue;
+        if (sub && (!o->subtype || strcasecmp(sub, o->subtype))) continue;
+        if (pfx && (!o->name || strncasecmp(pfx, o->name, strlen(pfx)))) continue;
+        want = o; }
+      hwloc_obj_t g2 = hwloc_get_obj_with_same_locality(T, se->o, ty, sub, pfx, 0);
+      CHECK(g2 == want, "same_locality.filtered", "same_locality(%s, %s, subtype %s, nameprefix %s) = %s, brute force %s", OBJN(se->o, s1), hwloc_obj_type_string(ty), sub ? sub : "NULL", pfx ? pfx : "NULL", g2 ? OBJN(g2, s2) : "NULL", want ? "finds another or one" : "finds none");
+      if (want && (sub || pfx)) hv_stat("same_locality.filtered_matches", 1);
+    }
+  }
+  /* I/O sources: an OS device or PCI device converts to the PCI device holding it, or to the first matching OS device directly below that PCI device */
+  if (!se->has_sets && (se->o->type == HWLOC_OBJ_OS_DEVICE || se->o->type == HWLOC_OBJ_PCI_DEVICE) && (ty == HWLOC_OBJ_OS_DEVICE || ty == HWLOC_OBJ_PCI_DEVICE)) {
+    hwloc_obj_t pci = se->o; while (pci && pci->type == HWLOC_OBJ_OS_DEVICE) pci = pci->parent;
+    const char *pfx = NULL; hwloc_obj_t want = NULL;
+    if (pci && pci->type == HWLOC_OBJ_PCI_DEVICE) {
+      hwloc_obj_t first_os = NULL; for (hwloc_obj_t c = pci->io_first_child; c; c = c->next_sibling) if (c->type == HWLOC_OBJ_OS_DEVICE && c->name && c->name[0]) { if (!first_os || hv_chance(&R, 1, 3)) first_os = c; }
+      static char pb[64]; if (first_os && hv_chance(&R, 1, 2)) { size_t l = strlen(first_os->name); if (l > 3) l = 3; snprintf(pb, sizeof pb, "%.*s", (int)l, first_os->name); for (char *q = pb; *q; q++) if (hv_chance(&R, 1, 2)) *q = (char)toupper((unsigned char)*q); pfx = pb; }
+      if (ty == HWLOC_OBJ_PCI_DEVICE) { if (!pfx || (pci->name && !strncasecmp(pfx, pci->name, strlen(pfx)))) want = pci; }
+      else for (hwloc_obj_t c = pci->io_first_child; c && !want; c = c->next_sibling) if (c->type == HWLOC_OBJ_OS_DEVICE && (!pfx || (c->name && !strncasecmp(pfx, c->name, strlen(pfx))))) want = c;
+    }
+    hwloc_obj_t g3 = hwloc_get_obj_with_same_locality(T, se->o, ty, NULL, pfx, 0);
+    /* an OS device that is not held by a PCI device (attached to a normal object or a bridge): the documentation only speaks of devices
+     * "within a given PCI device"; converting such a source to a PCI device must give NULL, converting it to an OS device is not judged */
+    if (!(pci && pci->type == HWLOC_OBJ_PCI_DEVICE) && ty == HWLOC_OBJ_OS_DEVICE) { hv_stat("same_locality.io_not_in_pci_not_judged", 1); return; }
+    CHECK(g3 == want, "same_locality.io", "same_locality(%s -> %s, nameprefix %s) = %s, the PCI device holding the source gives %s", OBJN(se->o, s1), hwloc_obj_type_string(ty), pfx ? pfx : "NULL", g3 ? OBJN(g3, s2) : "NULL", want ? "another or one object" : "none");
+    hv_stat("same_locality.io_queries", 1);
+  }
 }
 
 /* ---------------------------------------------------------------- type/depth lookups */
@@ -436,6 +472,11 @@ void hv_case(uint64_t index)
   if (wf_check(T, "precondition.") != 0) { hv_stat("skipped_not_wellformed", 1); hwloc_topology_destroy(T); return; }   /* C01/C02 territory */
   if (hwloc_bitmap_last(hwloc_topology_get_complete_cpuset(T)) >= VS_W - 64 || hwloc_bitmap_last(hwloc_topology_get_complete_nodeset(T)) >= VS_W - 64) { hv_stat("skipped_beyond_window", 1); hwloc_topology_destroy(T); return; }
   tv_view_build(T, &V, 1);
+  /* subtypes and names for the filtered same-locality queries (they do not take part in any other query) */
+  for (unsigned i = 0; i < V.n; i++) if (V.v[i].has_sets && hv_chance(&R, 1, 3)) { hwloc_obj_t o = V.v[i].o;
+    static const char *const ST[] = { "HBM", "hBm", "DRAM", "DRAM2" }, *const NM[] = { "dev1", "Dev12-a", "DEV", "xdev", "other" };
+    if (!o->subtype && hv_chance(&R, 2, 3)) hwloc_obj_set_subtype(T, o, ST[hv_below(&R, 4)]);
+    if (!o->name && hv_chance(&R, 2, 3)) o->name = strdup(NM[hv_below(&R, 5)]); }
   NPU = (unsigned)hwloc_get_nbobjs_by_type(T, HWLOC_OBJ_PU);
   hv_stat("topologies", 1);
   hv_distinct(2, tv_shape_hash(T));
